@@ -1037,9 +1037,9 @@ def _step_read(ctx, v, p, L):
         return v
     if k == 'index':
         idx = L[p[1]]
-        if is_sym(idx):
-            raise Unsupported('symbolic index')
         items = seq_items(v)
+        if is_sym(idx):
+            idx = ctx.concretize_int(idx, list(range(len(items))))
         if idx >= len(items):
             raise Panic('index out of bounds')
         return items[idx]
